@@ -69,7 +69,19 @@ class Comparer(object):
         rest = qb[:i0] + qb[i0 + k:]
         for a, b in zip(pb, rest):
             if where == 'ClassDef':
-                self._in_class_body[id(a)] = True
+                # the statements that run in the class namespace: the body and the blocks of its compound statements
+                stack = [a]
+                while stack:
+                    st = stack.pop()
+                    self._in_class_body[id(st)] = True
+                    if isinstance(st, (ast.FunctionDef, ast.AsyncFunctionDef, ast.ClassDef)):
+                        continue
+                    for fld in ('body', 'orelse', 'finalbody'):
+                        stack.extend(x for x in getattr(st, fld, []) or [] if isinstance(x, ast.stmt))
+                    for h in getattr(st, 'handlers', []) or []:
+                        stack.extend(h.body)
+                    for c in getattr(st, 'cases', []) or []:
+                        stack.extend(c.body)
             self.node(a, b)
 
     def ident(self, pn, qn, field, index=None):
